@@ -7,7 +7,7 @@ pub fn def() -> PropDef {
         builds: BOTH,
         rule: "every well-formed text over each menu up to length N x first-fit configurations (both separators, none/hyphen splitter, break_words on/off, 7 indent pairs covering every order relation between the indent widths and the width, width range); non-trivial = text with >= 2 paragraphs under indents of different display widths",
         assumptions: BASE_ASSUMPTIONS,
-        floor: |t| t.pick(50_000, 500_000),
+        floor: |t| t.pick(50_000, 150_000),
         run,
     }
 }
